@@ -166,17 +166,28 @@ func GoroutinesWith(dump string, needles ...string) []string {
 }
 
 // RunTimed runs f in a goroutine and reports whether it returned within d.
-// On timeout the goroutine is abandoned and a full dump is returned.
+// On timeout the goroutine is abandoned and a full dump is returned; a panic in f
+// is recovered and returned as a dump starting with "PANIC:".
 func RunTimed(d time.Duration, f func()) (ok bool, dump string) {
 	done := make(chan struct{})
+	var pv string
 	go func() {
 		defer close(done)
+		defer func() {
+			if r := recover(); r != nil {
+				buf := make([]byte, 1<<14)
+				pv = fmt.Sprintf("PANIC: %v\n%s", r, buf[:runtime.Stack(buf, false)])
+			}
+		}()
 		f()
 	}()
 	t := time.NewTimer(d)
 	defer t.Stop()
 	select {
 	case <-done:
+		if pv != "" {
+			return false, pv
+		}
 		return true, ""
 	case <-t.C:
 		return false, Dump()
